@@ -146,6 +146,19 @@ def hierarchy_helper(hugr, expr):
     (reads .children and starts from .root), return that method"""
     if isinstance(expr, ast.Call) and isinstance(expr.func, ast.Attribute) and not expr.args:
         k, m = hugr.find_method(expr.func.attr)
+        # `return list(self._gen())`: the order is the one a private generator produces
+        for _ in range(3):
+            if m is None:
+                break
+            body = real_body(m)
+            if len(body) == 1 and isinstance(body[0], ast.Return) and isinstance(body[0].value, (ast.Call, ast.List)):
+                v = body[0].value
+                inner = v.args[0] if isinstance(v, ast.Call) and u(v.func) in ("list", "tuple") and len(v.args) == 1 else (
+                    v.elts[0].value if isinstance(v, ast.List) and len(v.elts) == 1 and isinstance(v.elts[0], ast.Starred) else None)
+                if isinstance(inner, ast.Call) and isinstance(inner.func, ast.Attribute) and u(inner.func.value) == "self" and not inner.args:
+                    k, m = hugr.find_method(inner.func.attr)
+                    continue
+            break
         if m is not None:
             reads_children = any(isinstance(n, ast.Attribute) and n.attr == "children" for n in ast.walk(m)) or any(
                 call_name(c) == "children" for c in calls_in(m))
@@ -165,6 +178,12 @@ def _returns_only_traversal(m) -> bool:
         for c in calls_in(lp):
             if call_name(c) in ("append", "extend") and isinstance(c.func.value, ast.Name):
                 accs.add(c.func.value.id)
+    if any(isinstance(n, (ast.Yield, ast.YieldFrom)) for n in ast.walk(m)):
+        # a generator: what it yields is what is listed; every yield sits in the loop that follows the children
+        ys = [n for n in ast.walk(m) if isinstance(n, (ast.Yield, ast.YieldFrom))]
+        in_loops = [y for lp in ast.walk(m) if isinstance(lp, (ast.While, ast.For)) and
+                    any(isinstance(x, ast.Attribute) and x.attr == "children" for x in ast.walk(lp)) for y in ast.walk(lp) if y in ys]
+        return bool(ys) and len({id(y) for y in in_loops}) == len(ys) and not any(isinstance(r, ast.Return) and r.value is not None for r in ast.walk(m))
     rets = [r for r in ast.walk(m) if isinstance(r, ast.Return) and r.value is not None]
     def derived(e) -> bool:
         # the accumulator itself, or an order-preserving element-wise image of it
@@ -211,7 +230,8 @@ def r3_r4_order(ctx, rule3="C03.R3", rule4="C03.R4", with_insert: bool = False) 
     reuse = index_reuse_possible(hugr)
     # ---- which sequence is emitted
     sh = [c for c in calls_in(fn) if u(c.func).split(".")[-1] == "SerialHugr"][0]
-    nodes_arg = kwarg(sh, "nodes")
+    from .c02 import as_comprehension
+    nodes_arg = as_comprehension(fn, kwarg(sh, "nodes"))
     it = nodes_arg.generators[0].iter if isinstance(nodes_arg, (ast.ListComp, ast.GeneratorExp)) else None
     if isinstance(it, ast.Call) and u(it.func) == "enumerate" and it.args:
         it = it.args[0]
@@ -268,13 +288,15 @@ def r3_r4_order(ctx, rule3="C03.R3", rule4="C03.R4", with_insert: bool = False) 
             ctx.note("C03.R3 root-first not decidable while emission follows index order (see R4)")
     # own parent: the fallback for `parent is None` is the node's own renumbered handle
     nd = prog.cls(f"{BASE}.NodeData")
-    cands = [n for n in ast.walk(fn) if isinstance(n, ast.IfExp) and "parent" in u(n.test)]
+    cands = [n for n in list(ast.walk(fn)) + (list(ast.walk(nodes_arg)) if nodes_arg is not None else []) if isinstance(n, ast.IfExp) and "parent" in u(n.test)]
     ok = False
     found = ""
     for n in cands:
         found = u(n)
         for tm in ("E_map[self[E_n].parent] if self[E_n].parent is not None else E_map[E_n]", "E_map[self[E_n].parent] if self[E_n].parent else E_map[E_n]",
-                   "E_map[E_d.parent] if E_d.parent is not None else E_map[E_n]"):
+                   "E_map[E_d.parent] if E_d.parent is not None else E_map[E_n]",
+                   # the choice made on the key, looked up afterwards
+                   "self[E_n].parent if self[E_n].parent is not None else E_n", "E_d.parent if E_d.parent is not None else E_n"):
             e = tmatch(n, T(tm))
             if e is not None and "parent" not in e["E_n"]:
                 ok = True
